@@ -10,7 +10,7 @@ def run(ctx):
     f = dict(NB); f['pkg/northbound/gnmi/v2/zz_verif_c12.go'] = 'c12/zz_verif_c12.go'
     f['pkg/northbound/gnmi/v2/zz_verif_c19.go'] = 'c19/zz_verif_c19.go'
     params = {'namelen': 3, 'elems': 1, 'prefixelems': 0, 'pool': 5, 'keys': 3} if ctx.tier == 'quick' else {'namelen': 4, 'elems': 1, 'prefixelems': 1, 'pool': 13, 'keys': 4}
-    hs = [H('VerifC12Set', 'pkg/northbound/gnmi/v2', f, unwind=12, opts={'params': params}),
+    hs = [H('VerifC12Set', 'pkg/northbound/gnmi/v2', f, unwind=70, opts={'params': params, 'dec_text_unknown': True}),
           H('VerifC12Subscribe', 'pkg/northbound/gnmi/v2', f, unwind=10, opts={'params': params, 'cuts': {'github.com/openconfig/gnmi/path.ToStrings': 'noop'}})]
     hs.append(H('VerifC12Get', 'pkg/northbound/gnmi/v2', f, unwind=12, opts={'params': params}))
     hs.append(H('VerifC12Admin', 'pkg/northbound/admin', {'pkg/northbound/admin/zz_verif_c12_admin.go': 'c12/zz_verif_c12_admin.go'}, unwind=12, opts={'params': params}))
